@@ -493,6 +493,12 @@ func (s *fsm13) transitionAfterACK(result ACKResult, peerRetransmit bool) receiv
 		if s.retransmit {
 			return receivedFlightTransition{state: StateSending}
 		}
+		// A flight the timer never repeats (the cookie request) is still sent
+		// again when the peer repeats the ClientHello it answers: the request
+		// was lost. An ACK alone never earns another copy.
+		if peerRetransmit && len(s.flights) != 0 {
+			return receivedFlightTransition{state: StateSending}
+		}
 
 		return receivedFlightTransition{state: StateWaiting}
 	}
